@@ -332,3 +332,32 @@ Proof.
       * rewrite app_nil_r. reflexivity.
     + cbn [oq]. rewrite !app_nil_r. reflexivity.
 Qed.
+
+(* polling never creates or removes the NameOwnerChanged receiver *)
+Lemma ss_join_qn : forall st before r j' qs' qn',
+  ss_join st before = (r, j', qs', qn') -> (qn' = None <-> ss_qn st = None).
+Proof.
+  intros [j qs qn src] before r j' qs' qn' H. unfold ss_join in H. cbn [ss_j ss_qs ss_qn] in *.
+  destruct j as [|a ta|b tb| | |]; destruct qs as [|[t1 m1] qs]; destruct qn as [[|[t2 m2] qn]|];
+    destruct before as [bf|]; cbn in H;
+    repeat match type of H with
+           | context [if ?c then _ else _] => destruct c eqn:?
+           end;
+    inversion H; subst; split; intro X; try discriminate X; reflexivity.
+Qed.
+
+Lemma ss_poll_qn : forall fuel st before r st',
+  ss_poll fuel st before = Some (r, st') -> (ss_qn st' = None <-> ss_qn st = None).
+Proof.
+  induction fuel as [|f IH]; intros st before r st' H; [discriminate|].
+  cbn [ss_poll] in H. destruct (ss_join st before) as [[[r0 j'] qs'] qn'] eqn:EJ.
+  pose proof (ss_join_qn _ _ _ _ _ _ EJ) as Hq.
+  destruct r0 as [m t| | |].
+  - destruct (ss_filter (ss_src st) m) as [keep src'].
+    destruct keep.
+    + inversion H; subst. exact Hq.
+    + apply IH in H. cbn [ss_qn] in H. tauto.
+  - inversion H; subst. exact Hq.
+  - inversion H; subst. exact Hq.
+  - inversion H; subst. exact Hq.
+Qed.
